@@ -122,6 +122,12 @@ M_C08_Order == \A p \in DOMAIN created : \A c \in DOMAIN sent :
         c[1] = OutPortOf(p, o) =>
            \A i \in DOMAIN sent[c] : i <= Len(created[p]) /\ sent[c][i] = created[p][i].outs[o]
 
+\* C08/C04: what a port receives from one upstream is a prefix of what that upstream sent to it,
+\* in the same order (item ids are unique per connection in the generated instances)
+IsPrefixOf(a, b) == Len(a) <= Len(b) /\ SubSeq(b, 1, Len(a)) = a
+M_C08_PerUpstream == \A c \in DOMAIN sent :
+     IsPrefixOf(SelectSeq(Get(got, c[2]), LAMBDA x : x \in ToSet(sent[c])), sent[c])
+
 \* C09: the failing task's outputs are never published; completion is never reported
 M_C09_NotPublished == \A k \in failedkeys : k \in ExpKeys => OutsOfKey(k) \cap pub = {}
 M_C09_NoSilent == (\E k \in DOMAIN execs : k \in DOMAIN Faults) => st # "returned"
